@@ -130,9 +130,38 @@ def judge(module, traces, tag=None, jvms=4, workers=4, heap='3g', timeout=1800, 
                 f.write('\n')
         files.append(fn)
 
+    forced = {}      # (chunk, index in chunk) -> verdict given because TLC could not evaluate the record
+
     def one(ci):
-        return run_tlc(module, env={'TRACE_FILE': files[ci]}, workers=workers,
-                       heap=heap, timeout=timeout, tag=f'{tag}_{ci}')
+        """
+        Judge one chunk.  A recorded observable outside the domain of the specification's operators (a column beyond the end
+        of its line, a missing field ...) makes TLC stop with an evaluation error that names the trace; such a trace is a
+        mismatch with the specification: it gets a REJECT verdict and the rest of the chunk is judged again without it.
+        """
+        ch = chunks[ci]
+        alive = list(range(len(ch)))
+        for attempt in range(60):
+            res = run_tlc(module, env={'TRACE_FILE': files[ci]}, workers=workers,
+                          heap=heap, timeout=timeout, tag=f'{tag}_{ci}')
+            if not tlc_failed(res):
+                res['alive'] = alive
+                return res
+            m = re.search(r'Error: The behavior up to this point is:.*?/\\ tid = (\d+)', res['out'], re.S)
+            e = re.search(r'Error: (?!The behavior|The error occurred)(.*)', res['out'])
+            if not m or 'Parsing or semantic analysis failed' in res['out'] or len(alive) <= 1:
+                res['alive'] = alive
+                return res
+            k = int(m.group(1)) - 1
+            bad = alive[k]
+            why = (e.group(1).strip() if e else 'evaluation error')[:160]
+            forced[(ci, bad)] = ('REJECT', 'recorded observable outside the domain of the specification: ' + why)
+            del alive[k]
+            with open(files[ci], 'w', encoding='utf-8') as f:
+                for j in alive:
+                    f.write(json.dumps(ch[j], ensure_ascii=True))
+                    f.write('\n')
+        res['alive'] = alive
+        return res
 
     with ThreadPoolExecutor(max_workers=len(chunks)) as ex:
         results = list(ex.map(one, range(len(chunks))))
@@ -146,7 +175,14 @@ def judge(module, traces, tag=None, jvms=4, workers=4, heap='3g', timeout=1800, 
             shutil.copy(files[ci], os.path.join(WORK, f'failed_{tag}_{ci}.ndjson'))
             raise MachineryError(f'TLC failed judging {module} chunk {ci}: see {keep}\n'
                                  + res['out'][-3000:])
-        v = parse_verdicts(res['out'], len(ch))
+        alive = res.get('alive', list(range(len(ch))))
+        va = parse_verdicts(res['out'], len(alive))
+        v = [None] * len(ch)
+        for pos, j in enumerate(alive):
+            v[j] = va[pos]
+        for (cj, j), fv in forced.items():
+            if cj == ci:
+                v[j] = fv
         if any(x is None for x in v):
             missing = [i for i, x in enumerate(v) if x is None][:5]
             keep = os.path.join(WORK, f'failed_{tag}_{ci}.out')
